@@ -1,4 +1,7 @@
 import JSL.Inv.PlanLemmas
+import JSL.Inv.PlanOf
+import JSL.Inv.EnvReach
+import JSL.Props.Example
 
 /-!
 # C06 — the lower bound never exceeds the makespan of any feasible schedule
@@ -10,6 +13,13 @@ two operations of one machine overlapping – the bound is at most the makespan.
 most the optimum, and the normalised terminal reward never exceeds its nominal maximum.
 
 The hypothesis "no job visits a machine twice" is needed: `c06_recirculation_breaks_bound`.
+
+`c06_env_makespan_at_least_bound` closes the loop with the environment: the schedule recorded in
+the state of **any terminated episode** (reset, then any agent actions) of an instance with
+constant durations is such a feasible schedule with the reported makespan, so the action interface
+admits no shortcut below the bound.  (That the optimum is *reached* by some accept/decline
+sequence is the correspondence side of C06: exhaustive decision trees against an independent
+optimum.)
 -/
 
 namespace JSL
@@ -42,6 +52,62 @@ theorem c06_lower_bound_sound {p : Plan} {C L : Int} (hf : FeasiblePlan p C)
       have h1 := machine_bound hf hd hnd hne μ hb ha
       have h2 := job_bound hf hd hne hmj
       omega
+
+/-- **C06, environment side: no terminated episode beats the bound.**  For an instance whose
+durations are constants and in which no job visits a machine twice, started at a non-negative
+time from a state at rest: whatever the agent does, the makespan reported with `terminated` is at
+least the lower bound computed from the instance. -/
+theorem c06_env_makespan_at_least_bound {orc : Oracle} {inst : Instance} {ec : EnvCfg} {st : RewardStatic}
+    {s0 : State} (hst : Start orc inst s0) (h0 : 0 ≤ s0.time)
+    (hdet : ∀ jc ∈ inst.jobs, ∀ oc ∈ jc.ops, ∃ d, oc.dur = .det d)
+    (hnr : ∀ jc ∈ inst.jobs, (jc.ops.map (·.machine)).Nodup)
+    {e : EnvState} (hr : EnvReach orc inst ec st s0 e) {a : AgentAct} {out : StepOut}
+    (h : envStep orc inst ec st e a = .ok out) {C : Int} (hm : out.makespan = some C)
+    {r : Rng} {L : Int} (hL : lowerBound (schedOf orc r inst) = some L) : L ≤ C := by
+  have hi := envReach_inv hst (EnvReach.step hr h)
+  obtain ⟨w, _⟩ := initOKB_sound hst.init
+  have nn := nonnegB_sound hst.samples hst.nonneg
+  have hx : Exposed orc inst ec st s0 out.env.res.state := Exposed.state (EnvReach.step hr h)
+  -- the reported makespan is the clock of a successful, fully delivered result
+  have hfin : out.env.res.success = true ∧ isDone inst out.env.res.state = true ∧ C = out.env.res.state.time := by
+    unfold envStep at h
+    split at h
+    · simp at h
+    · obtain ⟨⟨res', mw, r, mic⟩, _, h⟩ := except_bind_eq_ok h
+      simp only at h
+      obtain ⟨⟨rew, cnt⟩, _, h⟩ := except_bind_eq_ok h
+      simp at h; subst h
+      by_cases hs : res'.success = true
+      · simp only [hs, if_true] at hm ⊢
+        by_cases hd : isDone inst res'.state = true
+        · simp [hd] at hm; exact ⟨trivial, hd, hm.symm⟩
+        · simp [hd] at hm
+      · simp [hs] at hm
+  obtain ⟨hsuc, hdone, rfl⟩ := hfin
+  have hall : ∀ j ∈ out.env.res.state.jobs, ∀ o ∈ j.ops, o.st = .done := by
+    intro j hj
+    have hl : j.loc ∈ outputIds inst := by
+      unfold isDone at hdone
+      exact List.contains_iff_mem.mp (List.all_eq_true.mp hdone j hj)
+    exact (exposed_route hst hx).delivered j hj hl
+  obtain ⟨t, hS⟩ := hi.sched
+  have hF : Feasible inst out.env.res.state := Feasible.of_time (feasible_of_inv w (hi.struct.time t) hS)
+  obtain ⟨hplan, hdur⟩ := feasiblePlan_of_state w hi.struct hS.ops hF hi.dur
+    (fun j hj o ho a ha => Int.le_trans h0 (hi.starts j hj o ho (by rw [hall j hj o ho]; simp) a ha))
+    hall hdet (fun jc hjc oc hoc d hd => nn.ops jc hjc oc hoc d hd)
+    (C := out.env.res.state.time) (fun j hj o ho b hb => hi.stamp hsuc hdone j hj o ho (hall j hj o ho) b hb)
+  have hproj := planOf_proj (orc := orc) w hi.struct.shape r hdet
+  exact c06_lower_bound_sound hplan hdur (planOf_nodup_mach hi.struct.shape hnr) (by rw [hproj]; exact hL)
+
+/-- non-vacuity of the environment theorem: the example instance meets every hypothesis and has a bound -/
+example : initOKB Ex.inst Ex.s0 = true ∧ restB Ex.s0 = true ∧ placedB Ex.inst Ex.s0 = true ∧ nonnegB Ex.inst = true ∧
+    0 ≤ Ex.s0.time ∧ (∀ jc ∈ Ex.inst.jobs, ∀ oc ∈ jc.ops, ∃ d, oc.dur = .det d) ∧
+    (∀ jc ∈ Ex.inst.jobs, (jc.ops.map (·.machine)).Nodup) ∧
+    lowerBound (schedOf (fun _ _ => 0) (fun _ => 0) Ex.inst) = some 6 := by
+  refine ⟨by decide, by decide, by decide, by decide, by decide, ?_, by decide, by decide⟩
+  intro jc hjc oc hoc
+  simp [Ex.inst] at hjc
+  rcases hjc with rfl | rfl <;> simp at hoc <;> rcases hoc with rfl | rfl <;> simp
 
 /-- the hypothesis "no job visits a machine twice" cannot be dropped: one job (m0,1)(m1,5)(m0,1)
 run back to back has makespan 7, yet the code's bound is 8 (the tail `a_0` is taken after the
